@@ -566,16 +566,22 @@ def validUTF8 : Bytes → Bool
       | _ => false
     else false
 
-/-- jws.go `Message.MarshalJSON`: an unencoded payload (b64=false) must be representable as a JSON
-    string, i.e. valid UTF-8 (RFC 7797 §5.2); otherwise the serialisation is refused -/
-def marshalJSON (msg : Message) : PO Bytes :=
-  if msg.nb64 && !validUTF8 msg.payload then PO.fail "marshal-payload-utf8" else
+/-- the JSON object `Message.MarshalJSON` hands to `json.Marshal` (jws.go:438-470): one signature ⇒
+    flattened members, otherwise `signatures`; `bytes` leaves stand for Go strings -/
+def msgObject (msg : Message) : PO Wire :=
   match msg.signatures with
   | [s] => do
     let o ← sigObject s
-    jsonMarshalB (.obj (setKey "payload" (.bytes msg.payload) o))
+    pure (.obj (setKey "payload" (.bytes msg.payload) o))
   | sigs => do
     let l ← sigObjects sigs
-    jsonMarshalB (.obj [("payload", .bytes msg.payload), ("signatures", .arr l)])
+    pure (.obj [("payload", .bytes msg.payload), ("signatures", .arr l)])
+
+/-- jws.go `Message.MarshalJSON`: an unencoded payload (b64=false) must be representable as a JSON
+    string, i.e. valid UTF-8 (RFC 7797 §5.2); otherwise the serialisation is refused -/
+def marshalJSON (msg : Message) : PO Bytes :=
+  if msg.nb64 && !validUTF8 msg.payload then PO.fail "marshal-payload-utf8" else do
+    let w ← msgObject msg
+    jsonMarshalB w
 
 end Model.JWS
